@@ -105,6 +105,7 @@ class Obligation:
         self.assumes = []
         self.desc = ""
         self.replay = None  # callable(model) -> (cmdline for mvalidate, predicate(json)->bool violated)
+        self.collect_all = False  # evaluate every query even after a failure (each failure is judged on its own)
 
     def prove(self, qname, hyps, goal, replay=None):
         s = z3.Solver()
